@@ -148,6 +148,38 @@ func runLint(c *Ctx) {
 			lc.failf("threadgroup-critical-section-changed", "ThreadGroup.Add no longer tests the closed channel and increments the WaitGroup in one region under tg.mu")
 		}
 	}
+	// every path through Close reaches the thread group's Stop (the model's Close IS Stop):
+	// no return before it
+	for _, cl := range []struct{ file, recv, kind string }{
+		{"syncer/syncer.go", "Syncer", "syncer-close-skips-stop"},
+		{"rhp/v4/server.go", "Server", "rhp4-close-skips-stop"},
+		{"wallet/wallet.go", "SingleAddressWallet", "wallet-close-skips-stop"},
+	} {
+		f := parse(cl.file)
+		if f == nil {
+			continue
+		}
+		fd := funcDecl(f, cl.recv, "Close")
+		if fd == nil {
+			lc.failf("lint-anchor-missing", "%s: (*%s).Close not found", cl.file, cl.recv)
+			continue
+		}
+		reached := false
+		for _, st := range fd.Body.List {
+			if es, ok := st.(*ast.ExprStmt); ok && isCallTo(es.X, ".tg.Stop", lc) {
+				reached = true
+				break
+			}
+			if containsOutsideFuncLit(st, isReturn) {
+				lc.failf(cl.kind, "%s: (*%s).Close can return at\n%s\nbefore the thread group is stopped: on that path background work is not waited for and later work is accepted", cl.file, cl.recv, lc.src(st))
+				reached = true
+				break
+			}
+		}
+		if !reached {
+			lc.failf(cl.kind, "%s: (*%s).Close does not call tg.Stop() on its main path", cl.file, cl.recv)
+		}
+	}
 	for _, b := range lc.bad {
 		c.Res.Fail(b.kind, b.detail, map[string]any{"section": "lint", "repo": c.Repo})
 	}
